@@ -131,11 +131,56 @@ deriving Repr
 database file (the old fingerprint no longer matches) and asks for a full snapshot. -/
 def appendEntry (n : Node) (c : Cmd) : Node := { n with hist := n.hist ++ [c] }
 
+/-! #### `SwappableDB.Swap` as its list of steps
+`swapSteps` is interpreted by `swapRun` (so the ORDER matters: with the second gate after the
+removal of the current database, invalid data destroys it — what the unrepaired code did) and,
+rendered as strings, compared with the steps extracted from db/swappable_db.go. -/
+
+inductive SwapStep where
+  | gateMagic | gateOpens | closeCurrent | removeCurrent | renameNew | openNew
+deriving Repr, DecidableEq
+
+def SwapStep.code : SwapStep → String
+  | .gateMagic => "IsValidSQLiteFile"
+  | .gateOpens => "checkSQLiteFileOpens"
+  | .closeCurrent => "s.db.Close"
+  | .removeCurrent => "RemoveFiles"
+  | .renameNew => "os.Rename"
+  | .openNew => "OpenWithDriver"
+
+def swapSteps : List SwapStep :=
+  [.gateMagic, .gateOpens, .closeCurrent, .removeCurrent, .renameNew, .openNew]
+
+/-- the candidate file: `some d` = a database SQLite can open, `none` = bytes that carry the
+SQLite magic but cannot be opened (or are shorter than their header says) -/
+structure SwapRun where
+  n       : Node
+  failed  : Bool := false     -- Swap has returned an error
+
+def swapStep (cand : Option Db) (x : SwapRun) (st : SwapStep) : SwapRun :=
+  if x.failed then x else
+  match st with
+  | .gateMagic => x                       -- both kinds of candidate carry the magic
+  | .gateOpens => if cand.isNone then { x with failed := true } else x
+  | .closeCurrent => x
+  | .removeCurrent => { x with n := { x.n with dbFileOk := false } }
+  | .renameNew =>
+    match cand with
+    | some d => { x with n := { x.n with dbFile := d, dbFileOk := true } }
+    | none => x                           -- a file SQLite cannot open is in place: still no database
+  | .openNew =>
+    match cand with
+    | some d => { x with n := { x.n with live := d } }
+    | none => { x with failed := true }
+
+def swapRun (steps : List SwapStep) (cand : Option Db) (n : Node) : Node :=
+  (steps.foldl (swapStep cand) { n := n }).n
+
 def fsmApply (n : Node) (c : Cmd) : Node :=
   let n1 := { n with live := applyCmd n.live c, applied := n.applied + 1 }
   match c with
-  | .load d => { n1 with dbFile := d, fp := false, fullNeeded := true }
-  | .loadBad => { n1 with fullNeeded := true }     -- `fsmApply` sets it for every LOAD entry
+  | .load d => { swapRun swapSteps (some d) { n with applied := n.applied + 1 } with fp := false, fullNeeded := true }
+  | .loadBad => { swapRun swapSteps none { n with applied := n.applied + 1 } with fullNeeded := true }  -- `fsmApply` sets it for every LOAD entry
   | _ => n1
 
 def write (n : Node) (c : Cmd) : Node := fsmApply (appendEntry n c) c
@@ -146,17 +191,67 @@ def write (n : Node) (c : Cmd) : Node := fsmApply (appendEntry n c) c
 def snapCheckpoint (n : Node) : Node :=
   { n with fp := n.fp && decide (n.dbFile = n.live), dbFile := n.live }
 
-/-- `FSMSnapshot.Persist`: the state reaches the snapshot store's temp directory -/
-def snapPersist (n : Node) : Node := { n with snapTmp := some (n.applied, n.live) }
+/-! #### `FSMSnapshot.Persist` and `Sink.Close` as their lists of steps (same convention) -/
 
-/-- `Sink.Close`: temp directory renamed into place; due-next := incremental -/
-def snapInstall (n : Node) : Node :=
-  match n.snapTmp with
-  | some s => { n with snap := some s, snapTmp := none, fullNeeded := false }
-  | none => n
+inductive PersistStep where
+  | writeData | handFinalizerToSink | runFinalizerHere
+deriving Repr, DecidableEq
+
+def PersistStep.code : PersistStep → String
+  | .writeData => "f.FSMSnapshot.Persist"
+  | .handFinalizerToSink => "ac.SetAfterClose"
+  | .runFinalizerHere => "f.Finalizer"
+
+def persistSteps : List PersistStep := [.writeData, .handFinalizerToSink, .runFinalizerHere]
+
+/-- `sinkTakesIt`: the sink accepts the finalizer (every sink of the real snapshot store does);
+then `Persist` returns before the last step -/
+def persistStep (sinkTakesIt : Bool) (n : Node) : PersistStep → Node
+  | .writeData => { n with snapTmp := some (n.applied, n.live) }
+  | .handFinalizerToSink => n
+  | .runFinalizerHere => if sinkTakesIt then n else { n with fp := true }
+
+/-- `FSMSnapshot.Persist`: the state reaches the snapshot store's temp directory -/
+def snapPersist (n : Node) : Node := persistSteps.foldl (persistStep true) n
+
+inductive SinkStep where
+  | refuseIncrementalIfFullDue | moveStaging | moveWals | closeFull | writeMeta | install | clearFullNeeded | afterClose
+deriving Repr, DecidableEq
+
+def SinkStep.code : SinkStep → String
+  | .refuseIncrementalIfFullDue => "s.stc.DueNext"
+  | .moveStaging => "os.Rename"
+  | .moveWals => "sd.MoveWALFilesTo"
+  | .closeFull => "s.sinkW.Close"
+  | .writeMeta => "writeMeta"
+  | .install => "os.Rename"
+  | .clearFullNeeded => "s.stc.ClearFullNeeded"
+  | .afterClose => "s.afterClose"
+
+def sinkCloseSteps : List SinkStep :=
+  [.refuseIncrementalIfFullDue, .moveStaging, .moveWals, .closeFull, .writeMeta, .install, .clearFullNeeded, .afterClose]
+
+/-- `finalizerOk`: `createSnapshotFingerprint` succeeds; when it fails the sink only logs it.
+(`fsmSnapshot` takes the full branch whenever a full snapshot is due, so the snapshot being
+closed here is a full one exactly when `fullNeeded` is set: the refusal of an incremental
+snapshot never fires in a sequential history, and clearing the requirement is `:= false`.) -/
+def sinkStep (finalizerOk : Bool) (n : Node) : SinkStep → Node
+  | .install =>
+    match n.snapTmp with
+    | some s => { n with snap := some s, snapTmp := none }
+    | none => n
+  | .clearFullNeeded => { n with fullNeeded := false }
+  | .afterClose => if finalizerOk then { n with fp := true } else n
+  | _ => n            -- these work inside the temp directory only
+
+/-- `Sink.Close` up to and including the clearing of the full-snapshot requirement: the snapshot is installed -/
+def snapInstall (n : Node) : Node := (sinkCloseSteps.take 7).foldl (sinkStep true) n
 
 /-- the finalizer `createSnapshotFingerprint`, run by the sink after a successful install -/
-def snapFingerprint (n : Node) : Node := { n with fp := true }
+def snapFingerprint (n : Node) : Node := sinkStep true n .afterClose
+
+/-- the whole of `Sink.Close` -/
+def sinkClose (finalizerOk : Bool) (n : Node) : Node := sinkCloseSteps.foldl (sinkStep finalizerOk) n
 
 /-- raft `compactLogs`: keep `trailing` entries behind the snapshot -/
 def snapCompact (n : Node) (trailing : Nat) : Node :=
@@ -179,11 +274,30 @@ def boot (n : Node) (d : Db) : Node :=
 micro-steps left -/
 def crash (n : Node) : Node := { n with up := false, live := [], applied := 0 }
 
-/-- `fsmRestore` of the newest snapshot: fingerprint removed, database swapped in,
-fingerprint written -/
+/-! #### `fsmRestore` as its list of steps -/
+
+inductive RestoreStep where
+  | extract | removeFingerprint | swapIn | writeFingerprint
+deriving Repr, DecidableEq
+
+def RestoreStep.code : RestoreStep → String
+  | .extract => "snapshot.Restore"
+  | .removeFingerprint => "fsutil.RemoveFile"
+  | .swapIn => "s.db.Swap"
+  | .writeFingerprint => "s.createSnapshotFingerprint"
+
+def restoreSteps : List RestoreStep := [.extract, .removeFingerprint, .swapIn, .writeFingerprint]
+
+def restoreStep (i : Nat) (d : Db) (n : Node) : RestoreStep → Node
+  | .extract => n
+  | .removeFingerprint => { n with fp := false }
+  | .swapIn => { n with dbFile := d, dbFileOk := true, live := d, applied := i }
+  | .writeFingerprint => { n with fp := true }
+
+/-- `fsmRestore` of the newest snapshot (nothing to restore: an empty database is created) -/
 def restoreNewest (n : Node) : Node :=
   match n.snap with
-  | some (i, d) => { n with dbFile := d, dbFileOk := true, fp := true, live := d, applied := i }
+  | some (i, d) => restoreSteps.foldl (restoreStep i d) n
   | none => { n with dbFile := [], dbFileOk := true, fp := false, live := [], applied := 0 }
 
 /-- raft re-applies every command entry it still holds after the index the FSM is at
